@@ -428,3 +428,20 @@ def gen_busy(rnd):
         steps[0]["acts"][0], steps[0]["acts"][1] = steps[0]["acts"][1], steps[0]["acts"][0]
     return {"family": "busy", "steps": steps, "timeout": None, "externals": [], "meta": {"d1": d1, "burn": b, "deadlines": [round(d1 + b * f, 4) for f in (0.25, 0.5, 0.9)]}}
 
+
+
+def gen_dupfan(rnd):
+    """fan-out of byte-identical events into a single-worker step (adjacent identical ticks in the persisted log), fan-in by count.
+    The result is a constant, so re-sent duplicates after a resume cannot change it."""
+    n = rnd.randint(2, 4)
+    items = [{"_plain": True, "lat": [rnd.choice([0.5, 1])]} for _ in range(n)]
+    lat = items[0]["lat"]
+    for it in items:
+        it["lat"] = lat
+    steps = [
+        {"name": "start", "in": ["Go"], "nw": 1, "acts": [{"k": "send", "type": "EvA", "items": items}, {"k": "ret", "type": None}], "declare": ["EvA"]},
+        {"name": "w", "in": ["EvA"], "nw": rnd.choice([1, 1, 2]), "acts": [{"k": "sleep", "d": {"from": "lat"}}, {"k": "ret", "type": "EvC"}]},
+        {"name": "join", "in": ["EvC"], "nw": 1, "acts": [{"k": "collect", "types": ["EvC"] * n}, {"k": "ret", "type": "EvD", "v_const": "joined"}]},
+        {"name": "fin", "in": ["EvD"], "nw": 1, "acts": [{"k": "ret", "type": "StopEvent", "result": "const"}]},
+    ]
+    return {"family": "det", "steps": steps, "timeout": None, "externals": [], "meta": {"n": n, "identical_events": True}}
